@@ -5,9 +5,9 @@ MAP_ALLOC = ["internal/allocator/allocator.go", "controller/main.go", "controlle
              "internal/k8s/controllers/config_conversion.go", "internal/k8s/controllers/pool_controller.go",
              "internal/k8s/controllers/service_controller.go", "internal/k8s/controllers/service_controller_reload.go"]
 
-def alloc_conf(prop, rule, extra_assume=()):
+def alloc_conf(prop, rule, extra_assume=(), level="model_checking"):
     return {
-  "level": "model_checking",
+  "level": level,
   "rule": rule,
   "parts": [{"name": "main", "pkg": "controller", "test": "TestVerif_" + prop, "shards": {"quick": 16, "thorough": 16},
              "budget_s": {"quick": 120, "thorough": 1500}, "gomaxprocs": 1}],
@@ -43,7 +43,7 @@ CONF = {
  "C01": alloc_conf("C01", "explicit-state BFS over event histories (user events: create/update/delete of 3 services over a variant catalogue, pool layout changes; environment: any pending queue key next) of the real controller+reconcilers+allocator in 4 universes; state = canonical dump of store, queues, allocator maps, reconciler state; exclusivity + bookkeeping-coherence invariants on every new state, status exclusivity on every quiescent state"),
  "C02": alloc_conf("C02", "same graph; pool-policy oracle (membership in exactly one pool, buggy addresses, selectors, families, explicit requests, pool annotation) on every quiescent state and allocation-edge oracle (autoAssign, priority constraints) on every transition that gives a service its first address"),
  "C03": alloc_conf("C03", "same graph; macro-edge frame oracle between consecutive quiescent states (reference point carried in the state key while settling) + double full-resync write count from every new quiescent state"),
- "C06": alloc_conf("C06", "same graph with crash/restart (between any two events, before and after the first status write of a delivery) and failing status writes as bounded deviations; keep / no-steal / no-leak / gate oracles at the new instance's quiescent states", ["crash = the process is replaced by a fresh controller+reconcilers+allocator over the same store; all pending work is lost and re-derived from initial add events"]),
+ "C06": alloc_conf("C06", "same graph with crash/restart (between any two events, before and after the first status write of a delivery) and failing status writes as bounded deviations; keep / no-steal / no-leak / gate oracles at the new instance's quiescent states", ["crash = the process is replaced by a fresh controller+reconcilers+allocator over the same store; all pending work is lost and re-derived from initial add events"], level="fault_enumeration"),
  "C07": alloc_conf("C07", "same graph; starvation oracle on every quiescent state: a LoadBalancer service without address for which refalloc finds an admissible assignment with the others' holdings fixed"),
  "C11": alloc_conf("C11", "same graph; on every new state: counters == distinct addresses in use, assigned+available == refcidr capacity, no negative counter, allocator dump == dump of a fresh allocator rebuilt from the surviving assignments, every address released by the transition can be assigned to a fresh service"),
 }
